@@ -38,6 +38,9 @@ def transform(st, kind, n, quoted):
         u, v = cat("http://x.fr/a", h), cat("//x.fr/a", h)
     elif kind == "userinfo":
         _plain(st, he, "/?#@\\[]")
+        # a netloc holding a character whose NFKC form contains a delimiter is refused by the url parser: not a url
+        from pysx.models import _nfkc_delims
+        st.assume(z_and([z_not(_nfkc_delims().cond(c)) for c in he]), "userinfo the url parser accepts (NFKC check)")
         u, v = cat("http://x.fr/p?q=1"), cat("http://", h, "@x.fr/p?q=1")
         st.assume(len(he) > 0, "non-empty userinfo")
     elif kind in ("www", "www2", "m", "mobile", "amp-dot", "amp-dash"):
